@@ -9,6 +9,8 @@ def run(prop, tier, seed):
         return R.heap_property(prop, tier, seed)
     if prop in ("C10", "C11"):
         return R.parser_property(prop, tier, seed)
+    if prop == "C15":
+        return R.ser_property(prop, tier, seed)
     if prop == "C16":
         return R.conv_property(prop, tier, seed)
     if prop == "C19":
